@@ -239,7 +239,12 @@ def compare_with_oracle(lib, ora, tol=1e-9, lenient=False):
                     key = "control-mismatch-%s" % k
                 return (key, i, show(o), show(a))
         if k == "Arc":
-            cen = G.arc_center(o)
+            try:
+                cen = G.arc_center(o)
+            except (OverflowError, ZeroDivisionError):
+                # the oracle's plain F.6.5 formulas overflow for lengths beyond 1e154: no reference geometry to
+                # compare with (endpoints and kinds have been compared above)
+                continue
             scale = max(1.0, abs(o["start"][0]), abs(o["start"][1]), abs(o["end"][0]), abs(o["end"][1]))
             t_arc = tol
             if lenient and (cen is None or max(cen["rx"], cen["ry"]) > 1e9 * min(cen["rx"], cen["ry"], scale)
@@ -253,6 +258,11 @@ def compare_with_oracle(lib, ora, tol=1e-9, lenient=False):
                 if cen["lam"] > 1.0 - 1e-10:
                     # half-turn / scaled-up radii: the centre is sqrt(rounding noise) accurate at best
                     t_arc = 1e-6
+                lo_r = min(cen["rx"], cen["ry"])
+                if lo_r > 0:
+                    # eccentric ellipse through two fixed endpoints: rounding is amplified by the axis ratio (this
+                    # comparison only has to recognise *which* segments were retained; arc accuracy is C05's business)
+                    t_arc = min(1e-3, t_arc * max(1.0, max(cen["rx"], cen["ry"]) / lo_r))
             for t in (0.25, 0.5, 0.75):
                 e = G.arc_point(o, t, cen)
                 try:
@@ -1087,13 +1097,18 @@ def c09_one(mod, s, postops=True):
         if raised is None or isinstance(raised, ValueError):
             out.append(("constructor-" + c09_exception_key(p, e), "ValueError or a path",
                         "%s: %s" % (type(e).__name__, e)))
+    out_of_range = isinstance(raised, ValueError) and "out of range" in str(raised)
     if cat == "valid" and isinstance(raised, ValueError):
-        out.append(("valid-string-rejected", "a path", "ValueError"))
+        # an arc whose lengths differ by more than ~1e150 (or overflow when combined) has no centre form in double
+        # precision: the library says so with its own message; that class is kept apart from any other rejection
+        out.append(("arc-out-of-double-range-rejected" if out_of_range else "valid-string-rejected", "a path",
+                    "ValueError%s" % (": " + str(raised) if out_of_range else "")))
     fin = finite_problem(p)
     if fin is not None:
         out.append((c09_classify(s, cat, err, "nonfinite", fin), "every retained coordinate a finite real number", fin))
     # retained segments
-    if acc is not None and fin is None and (raised is None or isinstance(raised, ValueError)):
+    if acc is not None and fin is None and (raised is None or isinstance(raised, ValueError)) and not (
+            out_of_range and cat == "valid"):
         lib = lib_descs(p)
         ok = any(compare_with_oracle(lib, cand, lenient=True) is None for cand in acc)
         if not ok:
@@ -1409,6 +1424,12 @@ def lib_arc_cond(seg):
     r = max(cen["rx"], cen["ry"])
     lam = min(cen["lam"], 1.0)
     cond = min(1.0 / math.sqrt(max(1.0 - lam, 1e-300)), 6.4e5)
+    # an eccentric ellipse through two fixed endpoints: a relative error in the short radius moves the centre along the
+    # long axis by that error times the axis ratio (the endpoint form is ill-conditioned in the ratio as well as in
+    # the radius check)
+    lo = min(cen["rx"], cen["ry"])
+    if lo > 0:
+        cond = min(cond * max(1.0, r / lo), 6.4e5)
     return r, cond
 
 
@@ -1473,12 +1494,19 @@ def _exponent_stripped(dstr):
 
 
 def _arc_fixed_by_12_digits(mod, p, i, r, s):
-    """would printing the radii/rotation of arc i with 12 digits make this round trip succeed?"""
+    """would printing the radii/rotation of arc i with more digits than the six of %G make this round trip succeed?
+    12 digits (the coordinate format) are tried first; an arc whose radii were scaled up to just span its chord
+    (F.6.6) is ill-conditioned in the radii and needs all 17 - the root cause is the same: the text of the radii"""
+    return _arc_fixed_by_digits(mod, p, i, 12) or _arc_fixed_by_digits(mod, p, i, 17)
+
+
+def _arc_fixed_by_digits(mod, p, i, digits):
     try:
         segs = list(abs(p))
         a = segs[i]
         cur = segs[i - 1].end if i else None
-        text = "M %.17g,%.17g A %.12G,%.12G %.12G %d,%d %.17g,%.17g" % (
+        fmt = "M %%.17g,%%.17g A %%.%dG,%%.%dG %%.%dG %%d,%%d %%.17g,%%.17g" % (digits, digits, digits)
+        text = fmt % (
             a.start.x, a.start.y, a.rx, a.ry, a.get_rotation().as_degrees, int(abs(a.sweep) > math.pi),
             int(a.sweep >= 0), a.end.x, a.end.y)
         q = mod.Path(text)
@@ -1625,6 +1653,7 @@ def c07_strings(rng, tier):
 
 
 def replay_c07(mod, witness):
+    witness = witness.get("input", witness) if isinstance(witness.get("input", None), dict) else witness
     s = witness["s"]
     if "subpath" in witness or witness.get("op") in ("str", "subpath"):
         r = [x for x in c07_one(mod, s, combos=()) ]
